@@ -46,6 +46,8 @@ pub enum Ctl {
     /// Sim::crash / Sim::bounce with a regex that matches several host names at once
     CrashRe(String),
     BounceRe(String),
+    /// LinkIter::deliver_all on every link, from the controller (between two steps)
+    DeliverAll,
 }
 
 #[derive(Clone, Debug, Serialize, Deserialize)]
@@ -60,6 +62,9 @@ pub struct Scenario {
     /// text is part of the trace
     #[serde(default)]
     pub waiter_ms: Option<u64>,
+    /// the second execution's controller stalls in real time before its first manual delivery
+    #[serde(default)]
+    pub stall_b: bool,
 }
 
 pub struct C01;
@@ -241,6 +246,15 @@ async fn fs_worker(log: SharedLog, me: usize, inc: u32, files: u32, ring_ops: u3
     }
     let _ = sfs::create_dir_all(format!("{dir}/tmp"));
     let _ = sfs::sync_dir("/");
+    let stamp = |p: &str| -> String {
+        match sfs::metadata(p) {
+            Ok(m) => format!("{:?}/{:?}", m.created().ok().and_then(|t| t.duration_since(std::time::UNIX_EPOCH).ok()).map(us), m.modified().ok().and_then(|t| t.duration_since(std::time::UNIX_EPOCH).ok()).map(us)),
+            Err(e) => format!("{:?}", e.kind()),
+        }
+    };
+    log.ev(format!("n{me}.{inc} start: created/modified of {dir}/tmp {}", stamp(&format!("{dir}/tmp"))));
+    // a handle that lives as long as the incarnation (same descriptor number on every fs worker)
+    let journal = sfs::OpenOptions::new().read(true).write(true).create(true).open(format!("{dir}/journal")).ok();
     for r in 0..rounds {
         // orphans: files whose data is synced while their directory entry never is (tmp is never sync_dir'ed)
         for k in 0..2u32 {
@@ -269,6 +283,13 @@ async fn fs_worker(log: SharedLog, me: usize, inc: u32, files: u32, ring_ops: u3
         }
         let _ = sfs::hard_link(format!("{dir}/f{}-0", r % 11), format!("{dir}/h{r}"));
         let _ = sfs::sync_dir(&dir);
+        log.ev(format!("n{me}.{inc} r{r} created/modified of first file {}", stamp(&format!("{dir}/f{}-0", r % 11))));
+        if let Some(j) = &journal {
+            use std::os::unix::fs::FileExt;
+            let w = j.write_at(&pattern(300 + r, 5), r as u64 * 5);
+            let len = j.metadata().map(|m| m.len());
+            log.ev(format!("n{me}.{inc} r{r} journal write -> {:?} len {:?}", w.map_err(|e| e.kind()), len.map_err(|e| e.kind())));
+        }
         match sfs::read_dir(&dir) {
             Ok(rd) => {
                 let names: Vec<String> = rd.filter_map(|e| e.ok()).map(|e| e.file_name().to_string_lossy().to_string()).collect();
@@ -336,19 +357,39 @@ async fn fs_worker(log: SharedLog, me: usize, inc: u32, files: u32, ring_ops: u3
         }
         tokio::time::sleep(Duration::from_millis(2)).await;
     }
+    // the journal stays open while the host idles; it is looked at once more every few milliseconds
+    for k in 0..40u32 {
+        tokio::time::sleep(Duration::from_millis(3)).await;
+        if let Some(j) = &journal {
+            use std::os::unix::fs::FileExt;
+            let mut b = [0u8; 5];
+            let x = j.read_at(&mut b, 0);
+            if k % 8 == 0 || x.is_err() {
+                log.ev(format!("n{me}.{inc} idle journal read -> {:?} {:?}", x.map_err(|e| e.kind()), b));
+            }
+        }
+    }
     std::future::pending::<()>().await;
     Ok(())
 }
 
 /// One complete execution; returns (log lines incl. turmoil's tracing events, digest, error text if the run itself broke).
 fn execute(sc: &Scenario, keep: bool) -> (Vec<String>, u64, Option<String>, u64) {
+    execute_with(sc, keep, false)
+}
+
+/// `stall`: the controller of this execution is slow in real time — it sleeps (wall clock) right before its
+/// first manual delivery, for longer than the virtual time that has passed so far. Virtual timestamps and
+/// the step in which anything happens must not depend on that.
+fn execute_with(sc: &Scenario, keep: bool, stall: bool) -> (Vec<String>, u64, Option<String>, u64) {
+    let mut stalled = !stall;
     let log = SharedLog::new(keep);
     let incs: Vec<Rc<Cell<u32>>> = sc.hosts.iter().map(|_| Rc::new(Cell::new(0))).collect();
     let (res, tr) = trace::capture(|| {
         catch(|| {
             let mut b = turmoil::Builder::new();
             b.rng_seed(sc.cfg.rng_seed)
-                .epoch(std::time::UNIX_EPOCH + Duration::from_secs(sc.cfg.epoch_s))
+                .epoch(std::time::UNIX_EPOCH + Duration::from_secs(sc.cfg.epoch_s) + Duration::from_micros(sc.cfg.epoch_sub_us as u64))
                 .tick_duration(sc.cfg.tick())
                 .simulation_duration(Duration::from_millis(sc.cfg.duration_ms))
                 .min_message_latency(sc.cfg.min_latency())
@@ -408,6 +449,7 @@ fn execute(sc: &Scenario, keep: bool) -> (Vec<String>, u64, Option<String>, u64)
                     Ok(())
                 });
             }
+            let mut inflight = 0u32;
             for s in 1..=sc.steps {
                 for (at, c) in &sc.script {
                     if *at == s {
@@ -420,11 +462,35 @@ fn execute(sc: &Scenario, keep: bool) -> (Vec<String>, u64, Option<String>, u64)
                             Ctl::Release(a, b) => sim.release(name(*a), name(*b)),
                             Ctl::CrashRe(re) => sim.crash(regex::Regex::new(re).unwrap()),
                             Ctl::BounceRe(re) => sim.bounce(regex::Regex::new(re).unwrap()),
+                            Ctl::DeliverAll => {
+                                let lead_us = s as u64 * sc.cfg.tick_us.max(1000);
+                                if !stalled && lead_us <= 40_000 {
+                                    stalled = true;
+                                    std::thread::sleep(Duration::from_micros(lead_us + 2_000));
+                                }
+                                sim.links(|links| {
+                                    for link in links {
+                                        link.deliver_all();
+                                    }
+                                })
+                            }
                         }
                         log.ev(format!("ctl before step {s}: {:?}", c));
                     }
                 }
                 let r = sim.step();
+                // what is on the links after this step (logged when it changes): the step in which a
+                // message leaves a link is part of the execution
+                let mut n = 0u32;
+                sim.links(|ls| {
+                    for l in ls {
+                        n += l.count() as u32;
+                    }
+                });
+                if n != inflight {
+                    inflight = n;
+                    log.ev(format!("after step {s}: {n} messages on the links"));
+                }
                 if let Err(e) = &r {
                     log.ev(format!("step {s} -> Err({e})"));
                     break;
@@ -446,6 +512,10 @@ fn execute(sc: &Scenario, keep: bool) -> (Vec<String>, u64, Option<String>, u64)
     (std::mem::take(&mut l.lines), l.full_digest(), err, n)
 }
 
+fn on_fresh_thread<T: Send>(f: impl FnOnce() -> T + Send) -> T {
+    std::thread::scope(|s| std::thread::Builder::new().stack_size(16 << 20).spawn_scoped(s, f).expect("spawn").join().expect("execution thread"))
+}
+
 fn first_diff(a: &[String], b: &[String]) -> String {
     for (i, (x, y)) in a.iter().zip(b.iter()).enumerate() {
         if x != y {
@@ -465,7 +535,7 @@ fn gen_scenario(rng: &mut Rng) -> Scenario {
     }
     let nh = rng.usize(1, 5);
     let mut hosts = Vec::new();
-    hosts.push(if nh == 1 { HostProg::FsWorker { files: rng.range(3, 7) as u32, ring_ops: rng.range(0, 5) as u32, rounds: rng.range(1, 3) as u32 } } else { HostProg::Server });
+    hosts.push(if nh == 1 || rng.chance(1, 4) { HostProg::FsWorker { files: rng.range(3, 7) as u32, ring_ops: rng.range(0, 5) as u32, rounds: rng.range(1, 3) as u32 } } else { HostProg::Server });
     for _ in 1..nh {
         hosts.push(match rng.below(3) {
             0 => HostProg::FsWorker { files: rng.range(3, 7) as u32, ring_ops: rng.range(0, 5) as u32, rounds: rng.range(1, 3) as u32 },
@@ -500,6 +570,42 @@ fn gen_scenario(rng: &mut Rng) -> Scenario {
             _ => script.push((at, Ctl::Bounce(a))),
         }
     }
+    // deliveries by hand out of a held link, early in the run; some of these runs use ticks far below a
+    // millisecond, so that many steps pass in less real time than virtual time and vice versa
+    let mut stall_b = false;
+    if nh >= 2 && rng.chance(1, 5) {
+        if rng.chance(1, 3) {
+            // a slow controller in one of the two executions (real time), ticks of one millisecond
+            stall_b = rng.chance(1, 3);
+            let ratio = (cfg.tick_us / 1000).max(1);
+            cfg.min_latency_us /= ratio;
+            cfg.max_latency_us /= ratio;
+            cfg.tick_us = 1000;
+        } else if rng.chance(1, 2) {
+            let t = *rng.pick(&[2u64, 10, 50, 250]);
+            let ratio = (cfg.tick_us / t).max(1);
+            cfg.min_latency_us /= ratio;
+            cfg.max_latency_us /= ratio;
+            cfg.tick_us = t;
+        }
+        let b = rng.range(1, nh as u64 - 1) as usize;
+        let at = rng.range(1, 4) as u32;
+        script.push((at, Ctl::Hold(0, b)));
+        let mut s = at;
+        for _ in 0..rng.range(1, 4) {
+            s += rng.range(1, 12) as u32;
+            script.push((s, Ctl::DeliverAll));
+        }
+        if rng.bool() {
+            script.push((s + rng.range(1, 30) as u32, Ctl::Release(0, b)));
+        }
+    }
+    // the epoch may be the UNIX epoch itself (virtual time since the epoch is zero in the first tick)
+    if rng.chance(1, 10) {
+        cfg.epoch_s = 0;
+    } else if rng.chance(1, 10) {
+        cfg.epoch_sub_us = rng.range(1, 999_999) as u32;
+    }
     script.sort_by_key(|(s, _)| *s);
     let fs = FsCfg {
         sync_pct: *rng.pick(&[0u32, 0, 30, 100]),
@@ -515,7 +621,7 @@ fn gen_scenario(rng: &mut Rng) -> Scenario {
     } else {
         None
     };
-    Scenario { cfg, fs, hosts, script, steps, waiter_ms }
+    Scenario { cfg, fs, hosts, script, steps, waiter_ms, stall_b }
 }
 
 impl Property for C01 {
@@ -553,7 +659,10 @@ impl Property for C01 {
     fn run(sc: &Scenario, keep: bool) -> Report {
         let dbg = std::env::var("C01_DEBUG").is_ok();
         let (la, da, ea, na) = execute(sc, keep || dbg);
-        let (lb, db, _eb, _nb) = execute(sc, dbg);
+        // the second execution runs on a thread of its own (fresh thread-local state of every crate involved),
+        // the first one on the worker thread that has run thousands of other scenarios before
+        let stall = sc.stall_b;
+        let (lb, db, _eb, _nb) = on_fresh_thread(|| execute_with(sc, dbg, stall));
         if dbg && da != db {
             eprintln!("C01_DEBUG divergence: {}", first_diff(&la, &lb));
         }
@@ -564,12 +673,12 @@ impl Property for C01 {
         if da != db {
             // reproduce both traces in full to name the first differing event
             let (a, _, _, _) = execute(sc, true);
-            let (b, _, _, _) = execute(sc, true);
+            let (b, _, _, _) = on_fresh_thread(|| execute_with(sc, true, stall));
             let mut msg = first_diff(&a, &b);
             if a == b {
                 msg = format!("two executions differed (digests {da:016x} vs {db:016x}) but a third and fourth agreed with each other: {msg}");
             }
-            rep.violation = Some(Violation::new("InProcessDivergence", format!("two executions of the same scenario in one thread differ: {msg}")));
+            rep.violation = Some(Violation::new("InProcessDivergence", format!("two executions of the same scenario (worker thread, fresh thread) differ: {msg}")));
         }
         if let Some(e) = ea {
             if rep.violation.is_none() {
@@ -604,6 +713,7 @@ impl Property for C01 {
                 Ctl::Release(..) => "release",
                 Ctl::CrashRe(..) => "crash_by_regex",
                 Ctl::BounceRe(..) => "bounce_by_regex",
+                Ctl::DeliverAll => "manual_deliver_all",
             });
         }
         if sc.cfg.fail_rate_pm > 0 {
@@ -617,6 +727,18 @@ impl Property for C01 {
         }
         if sc.fs.sync_pct > 0 {
             rep.faults.inc("fs_random_sync_enabled");
+        }
+        if sc.cfg.tick_us < 1000 {
+            rep.probes.inc("tick_below_one_millisecond");
+        }
+        if sc.stall_b {
+            rep.faults.inc("controller_stalled_in_real_time_in_one_execution");
+        }
+        if sc.cfg.epoch_s == 0 {
+            rep.probes.inc("epoch_is_unix_epoch");
+        }
+        if matches!(sc.hosts[0], HostProg::FsWorker { .. }) && sc.hosts.iter().skip(1).any(|h| matches!(h, HostProg::FsWorker { .. })) {
+            rep.probes.inc("two_fs_workers_first_host_is_one");
         }
         if sc.cfg.random_order {
             rep.probes.inc("random_host_order");
@@ -646,7 +768,7 @@ impl Property for C01 {
             c.script.retain(|(_, k)| match k {
                 Ctl::Crash(h) | Ctl::Bounce(h) => *h != last,
                 Ctl::Partition(a, b) | Ctl::Repair(a, b) | Ctl::Hold(a, b) | Ctl::Release(a, b) => *a != last && *b != last,
-                Ctl::CrashRe(_) | Ctl::BounceRe(_) => true,
+                Ctl::CrashRe(_) | Ctl::BounceRe(_) | Ctl::DeliverAll => true,
             });
             out.push(c);
         }
